@@ -249,3 +249,25 @@ func (m *Machine) Dump() string {
 	}
 	return strings.TrimSpace(sb.String())
 }
+
+// astInspectAssignNext reports the abstract value of every `X.Next = v` assignment in fn
+// (X of type statemachine.Request), path-insensitively, including composite literals `Next: v`.
+func astInspectAssignNext(fn *Func, report func(string), info *types.Info) {
+	ast.Inspect(fn.Decl.Body, func(n ast.Node) bool {
+		switch x := n.(type) {
+		case *ast.FuncLit:
+			return false
+		case *ast.AssignStmt:
+			for i, l := range x.Lhs {
+				if reqField(info, l, "Next") && len(x.Rhs) == len(x.Lhs) {
+					v := ValueKey(info, x.Rhs[i])
+					if v == "" {
+						v = ExprStr(x.Rhs[i])
+					}
+					report(v)
+				}
+			}
+		}
+		return true
+	})
+}
